@@ -1,7 +1,7 @@
 """C16 - a context owns a private copy of its schema and shares nothing."""
 import re
 
-from .. import sym, report, ir
+from .. import sym, report, ir, cfg as _cfg
 from ..summaries import store_key
 
 EXPLANATION = (
@@ -99,6 +99,7 @@ def run(c, chk):
         elif not inL:
             chk.fail('R16.1', 'unexpected-owner:%s' % nm, c.where(dup), 'member "%s" is duplicated/released but is not an owned pointer member of the record' % nm)
     chk.floor('R16.1 owned pointer members', len(L), 5)
+    whole_array_copy_protected(c, chk, 'R16.1', L)
 
     # ---- R16.2 ---------------------------------------------------------------------------
     want = {'opts': {'cfg_dupopt_array', 'reallocarray'},
@@ -128,6 +129,11 @@ def run(c, chk):
                 else:
                     chk.ok('R16.2', '%s: cfg->%s' % (c.where(ins), fld), 'value from %s' % ', '.join(sorted(org)), sample=(fld == 'opts'))
     chk.floor('R16.2 stores to opts/name/title/filename', nst, 10)
+
+    # ---- R16.4: what is registered later goes to the template every new instance is copied from ----------
+    from . import c08, c14
+    chk.rule('R16.4', 'a schema change made by path (callback registration) reaches the section template that later instances are copied from, not the private copy of one instance')
+    c14.walker_template(c, c08.chk_proxy(chk, {'R14.7': 'R16.4'}), ex)
 
     # ---- R16.3 ---------------------------------------------------------------------------
     for fname, pname, allowed in (('cfg_init', 'opts', {'cfg_dupopt_array'}),
@@ -257,3 +263,57 @@ def escapes(f, reg, allowed_callees, _stack=()):
             elif ins.op in ('load', 'icmp'):
                 pass
     return None
+
+
+def owned_members(c):
+    allptr = pointer_members(c.confuse, '%struct.cfg_opt_t')
+    L = set()
+    for nm, ty in allptr.items():
+        base = nm.split('.')[0]
+        if base in SHARED_BY_DESIGN or '(' in ty:
+            continue
+        L.add(nm.split('.')[-1] if nm.startswith('def.') else nm)
+    return set('def.' + x if ('def.' + x) in allptr else x for x in L)
+
+
+def whole_array_copy_protected(c, chk, rid, L):
+    """If the duplicator starts from a raw copy of the caller's whole array, every owned pointer member of EVERY entry
+    must have been cleared before the first allocation that can fail: the failure path releases the copy, and an entry
+    that still holds the caller's pointers would have those freed."""
+    dup = c.need('cfg_dupopt_array')
+    for f in c.deep_funcs(dup):
+        raw = [x for x in f.calls() if (x.callee_name() or '').startswith('llvm.memcpy') and x.args[2].kind != 'int']
+        if not raw:
+            continue
+        dom = _cfg.dominators(f)
+        loops = _cfg.natural_loops(f)
+        # loops that clear members of the copy, with the members they clear
+        clearing = {}
+        for h, body in loops.items():
+            flds = set()
+            for b in body:
+                for ins in f.blocks[b].instrs:
+                    if ins.op == 'store' and ins.ops[0].kind == 'null':
+                        k = store_key(f, ins)
+                        if k and not k.startswith('local:') and k not in ('[]', '*'):
+                            flds.add(k)
+            if flds:
+                clearing[h] = (body, flds)
+        fallible = [x for x in f.calls() if (x.callee_name() or '') in ('strdup', 'strndup', 'malloc', 'calloc', 'cfg_dupopt_array')
+                    or (x.callee_name() or '') in c.unknown_funcs]
+        fallible = [x for x in fallible if any(raw_.block.label in dom.get(x.block.label, ()) for raw_ in raw) and x.block is not raw[0].block
+                    or (x.block is raw[0].block and x.idx > raw[0].idx)]
+        short = set(m.split('.')[-1] for m in L)
+        for x in fallible:
+            ok = False
+            for h, (body, flds) in clearing.items():
+                exits = set(s_ for b in body for s_ in f.blocks[b].succs if s_ not in body)
+                if x.block.label not in body and any(e in dom.get(x.block.label, ()) or e == x.block.label for e in exits) and short <= flds:
+                    ok = True
+            if not ok:
+                chk.fail(rid, 'raw-copy-unprotected:%s' % f.name, c.where(x),
+                         '%s() starts from a raw copy of the caller\'s array and reaches %s(), which can fail, before a loop has cleared %s in every entry: '
+                         'the failure path releases the copy and with it the caller\'s own strings of the entries not yet reached'
+                         % (f.name, x.callee_name(), sorted(short)))
+                return
+        chk.ok(rid, '%s: raw array copy' % f.name, 'a loop clearing %s of every entry is left before the first allocation that can fail' % sorted(short), sample=True)
